@@ -55,7 +55,7 @@ func runEvidenceCase(o *drv.Out, ci int, wired bool) {
 			gvs = append(gvs, genVal{v, 1000000, []uint64{1}})
 		}
 		var err error
-		root, err = newChain(gvs, true, 15, 10, ec.unstaking)
+		root, err = newChain(gvs, true, 15, 10, ec.unstaking, 0)
 		if err != nil {
 			panic(err)
 		}
@@ -720,7 +720,7 @@ func runCorpusExpired(o *drv.Out) {
 	for _, v := range vals[:4] {
 		gvs = append(gvs, genVal{v, 1000000, []uint64{1}})
 	}
-	root, err := newChain(gvs, true, 15, 10, 3)
+	root, err := newChain(gvs, true, 15, 10, 3, 0)
 	if err != nil {
 		panic(err)
 	}
@@ -818,6 +818,16 @@ func runLedgerCase(o *drv.Out, ci int) {
 	scoped := r.Intn(5) != 0
 	maxSlash := []uint64{15, 15, 10, 25, 1, 100, 50}[r.Intn(7)]
 	dsPct := []uint64{10, 10, 5, 20, 0, 100, 33, 15}[r.Intn(8)]
+	// every third case: validators near the minimum stake under protocol v2, several slashes of one validator by
+	// one committee per block
+	nearMin := ci%3 == 1
+	if nearMin {
+		scoped = true
+		maxSlash = []uint64{15, 15, 25, 50}[r.Intn(4)]
+		dsPct = []uint64{10, 10, 5, 20}[r.Intn(4)]
+		o.Count("ledger:near-minimum-stake")
+	}
+	nearStake := []uint64{1000, 100000, 12345, 999}[r.Intn(4)]
 	chains := []uint64{1, 2, 3}
 	nv := 3 + r.Intn(3)
 	var gvs []genVal
@@ -836,10 +846,32 @@ func runLedgerCase(o *drv.Out, ci int) {
 		if stake == 1<<62 && i > 0 {
 			stake = 1 << 40 // the genesis total must stay below 2^64: at most one validator near the top
 		}
+		if nearMin {
+			stake, cs = nearStake, []uint64{1, 2, 3}
+		}
 		gvs = append(gvs, genVal{vals[i], stake, cs})
 		lc.vs = append(lc.vs, vals[i])
 	}
-	c, err := newChain(gvs, scoped, maxSlash, dsPct, 2)
+	// the minimum stake: mostly 0 (as in every test of the repository); otherwise placed around what the first
+	// double-sign slash leaves of a validator's stake, so that slashes force-unstake (an early return of SlashValidator)
+	var minStake uint64
+	if nearMin || r.Intn(3) == 0 {
+		g := gvs[r.Intn(len(gvs))]
+		after := g.stake
+		if dsPct < 100 {
+			after = g.stake/100*(100-dsPct) + g.stake%100*(100-dsPct)/100
+		}
+		switch r.Intn(4) {
+		case 0:
+			minStake = after // not below: no force-unstake by the first slash
+		case 1:
+			minStake = g.stake // exactly at the minimum before, below after any real slash
+		default:
+			minStake = after + 1 // just below after the first slash
+		}
+	}
+	lc.minStake = minStake
+	c, err := newChain(gvs, scoped, maxSlash, dsPct, 2, minStake)
 	if err != nil {
 		panic(err)
 	}
@@ -859,13 +891,44 @@ func runLedgerCase(o *drv.Out, ci int) {
 	} else {
 		o.Count("ledger:protocol-v1")
 	}
-	lc.op(fmt.Sprintf("ledger scoped=%d max=%d pct=%d keys=%s vals=%s", sc, maxSlash, dsPct, strings.Join(keys, ","), strings.Join(vs, ",")), "ok")
+	lc.op(fmt.Sprintf("ledger scoped=%d max=%d pct=%d min=%d keys=%s vals=%s", sc, maxSlash, dsPct, minStake, strings.Join(keys, ","), strings.Join(vs, ",")), "ok")
 	lc.heights[3] = true
 	lc.dump()
 	lc.beginBlock()
 	nblocks := 2 + r.Intn(3)
-	var past []dsIn // what earlier blocks were given (replays across blocks)
+	var past []dsIn      // what earlier blocks were given (replays across blocks)
+	fresh := uint64(100) // heights nobody was reported for yet
 	for b := 0; b < nblocks; b++ {
+		if nearMin {
+			// several slashes of one validator by one committee in this block, in one of three shapes
+			target, ch := vals[b%nv], chains[r.Intn(len(chains))]
+			switch r.Intn(3) {
+			case 0: // one entry with several distinct heights
+				n := 2 + r.Intn(3)
+				var hs []uint64
+				for j := 0; j < n; j++ {
+					hs = append(hs, fresh)
+					fresh++
+				}
+				lc.hds(ch, []dsIn{{v: target, heights: hs}}, false, r.Intn(2) == 0)
+				o.Count("multi-slash:one-entry-several-heights")
+			case 1: // a non-sign slash and a double-sign slash
+				lc.slash(ch, []uint64{1, 5, 10}[r.Intn(3)], [][]byte{target.addr})
+				lc.hds(ch, []dsIn{{v: target, heights: []uint64{fresh, fresh + 1}}}, false, false)
+				fresh += 2
+				o.Count("multi-slash:non-sign-then-double-sign")
+			default: // two certificate results of the same committee
+				for j := 0; j < 2+r.Intn(2); j++ {
+					lc.hds(ch, []dsIn{{v: target, heights: []uint64{fresh}}}, false, r.Intn(2) == 0)
+					fresh++
+				}
+				o.Count("multi-slash:several-certificate-results")
+			}
+			if lc.c.unstaking(target.addr) {
+				o.Count("multi-slash:target-force-unstaked")
+			}
+			lc.dump()
+		}
 		nops := 1 + r.Intn(5)
 		for k := 0; k < nops; k++ {
 			ch := chains[r.Intn(len(chains))]
